@@ -837,10 +837,9 @@ func (s *Server) writeToNode(ctx context.Context, b []byte, node Addr, wait, rat
 	}
 	if err != nil {
 		writeErrors.Add(1)
-		if rate {
-			// Give the token back. nfi if this will actually work.
-			s.config.SendLimiter.AllowN(time.Now(), -1)
-		}
+		// The send-budget token this write took is not handed back: the limiter cannot take back a
+		// token that was already acted on, and crediting one while other senders hold reservations
+		// lets two of them share a time slot, exceeding the configured budget.
 		err = fmt.Errorf("error writing %d bytes to %s: %s", len(b), node, err)
 		return
 	}
